@@ -36,17 +36,21 @@ pub struct Build {
     pub name: &'static str,
     pub profile: &'static str,
     pub packed: bool,
+    /// optional features rkyv + num-traits + serde-as-str
+    pub full: bool,
 }
 
-pub const ALL_BUILDS: [Build; 8] = [
-    Build { name: "A dev (opt0, overflow-checks, debug-assertions)", profile: "c20a", packed: false },
-    Build { name: "B release (opt3, no checks)", profile: "c20b", packed: false },
-    Build { name: "B release + packed", profile: "c20b", packed: true },
-    Build { name: "C opt3 + checks", profile: "c20c", packed: false },
-    Build { name: "D opt0 without checks", profile: "c20d", packed: false },
-    Build { name: "A dev + packed", profile: "c20a", packed: true },
-    Build { name: "C opt3 + checks + packed", profile: "c20c", packed: true },
-    Build { name: "D opt0 without checks + packed", profile: "c20d", packed: true },
+pub const ALL_BUILDS: [Build; 10] = [
+    Build { name: "A dev (opt0, overflow-checks, debug-assertions), default features", profile: "c20a", packed: false, full: false },
+    Build { name: "B release (opt3, no checks), default features", profile: "c20b", packed: false, full: false },
+    Build { name: "B release + packed + rkyv/num-traits/serde-as-str", profile: "c20b", packed: true, full: true },
+    Build { name: "C opt3 + checks, all optional features", profile: "c20c", packed: false, full: true },
+    Build { name: "D opt0 without checks, default features", profile: "c20d", packed: false, full: false },
+    Build { name: "A dev + packed", profile: "c20a", packed: true, full: false },
+    Build { name: "C opt3 + checks + packed + all optional features", profile: "c20c", packed: true, full: true },
+    Build { name: "D opt0 without checks + packed", profile: "c20d", packed: true, full: false },
+    Build { name: "B release + all optional features", profile: "c20b", packed: false, full: true },
+    Build { name: "A dev + packed + all optional features", profile: "c20a", packed: true, full: true },
 ];
 
 pub struct C20 {
@@ -55,7 +59,7 @@ pub struct C20 {
 }
 
 fn target_dir(root: &Path, b: &Build) -> PathBuf {
-    root.join("harness/target/c20").join(format!("{}{}", b.profile, if b.packed { "p" } else { "" }))
+    root.join("harness/target/c20").join(format!("{}{}{}", b.profile, if b.packed { "p" } else { "" }, if b.full { "f" } else { "" }))
 }
 
 /// Build the driver for every configuration (in parallel); exit 2 on failure.
@@ -72,8 +76,9 @@ pub fn prepare(root: &Path, tier: Tier) -> C20 {
         hs.push(std::thread::spawn(move || {
             let mut cmd = Command::new("cargo");
             cmd.args(["build", "--offline", "--quiet", "--profile", b.profile]).current_dir(&drv).env("CARGO_TARGET_DIR", &td).env("CARGO_NET_OFFLINE", "true").env_remove("RUSTFLAGS");
-            if b.packed {
-                cmd.args(["--features", "packed"]);
+            let feats: Vec<&str> = [(b.packed, "packed"), (b.full, "full")].iter().filter(|(on, _)| *on).map(|(_, n)| *n).collect();
+            if !feats.is_empty() {
+                cmd.args(["--features", &feats.join(",")]);
             }
             let out = cmd.output().expect("spawn cargo");
             (b, td, out)
@@ -250,11 +255,14 @@ impl Prop for C20 {
             if o == reference {
                 continue;
             }
-            agree = false;
             let of: Vec<(&str, &str)> = o.split('|').filter(|s| !s.is_empty()).filter_map(|kv| kv.split_once('=')).collect();
             for (k, (name, v)) in rf.iter().enumerate() {
                 let other = of.get(k).map(|p| p.1).unwrap_or("<missing>");
+                if *v == "X" || other == "X" {
+                    continue; // operation not available in one of the feature sets
+                }
                 if *v != other {
+                    agree = false;
                     ctx.fail(
                         &format!("C20/build-differs:{name}"),
                         format!("{case:?}: operation '{name}' gives [{v}] in build '{}' but [{other}] in build '{}'", self.builds[0].name, self.builds[bi].name),
